@@ -157,7 +157,7 @@ func ToScalar(tv *pb.TypedValue) (interface{}, error) {
 // decimalToFloat converts a *gnmi_proto.Decimal64 to a float32. Downcasting to
 // float32 is performed as the precision of a float64 is not required.
 func decimalToFloat(d *pb.Decimal64) float32 {
-	return float32(float64(d.Digits) / math.Pow(10, float64(d.Precision)))
+	return float32(float64(d.GetDigits()) / math.Pow(10, float64(d.GetPrecision())))
 }
 
 // Equal returns true if the values in a and b are the same.  This method
@@ -212,13 +212,13 @@ func Equal(a, b *pb.TypedValue) bool {
 		if !ok {
 			return false
 		}
-		return av.DecimalVal.Digits == bv.DecimalVal.Digits && av.DecimalVal.Precision == bv.DecimalVal.Precision
+		return av.DecimalVal.GetDigits() == bv.DecimalVal.GetDigits() && av.DecimalVal.GetPrecision() == bv.DecimalVal.GetPrecision()
 	case *pb.TypedValue_LeaflistVal:
 		bv, ok := b.GetValue().(*pb.TypedValue_LeaflistVal)
 		if !ok {
 			return false
 		}
-		ae, be := av.LeaflistVal.Element, bv.LeaflistVal.Element
+		ae, be := av.LeaflistVal.GetElement(), bv.LeaflistVal.GetElement()
 		if len(ae) != len(be) {
 			return false
 		}
